@@ -869,7 +869,9 @@ func parseREST(v *ClientView, sc *Scenario, enc *encodedRequest, outType string,
 	}
 	if comp != "" {
 		d, err := decompressBytes(comp, body)
-		if err == nil {
+		if err != nil {
+			v.problem("error body declared %s does not inflate: %v", comp, err)
+		} else {
 			body = d
 		}
 	}
